@@ -80,6 +80,52 @@ Theorem C13_writes_safe : forall b, In b bodies ->
 Proof. intros b Hin V own. exact (writes_ok_sound V own bodies gen_writes_ok b Hin). Qed.
 Print Assumptions C13_writes_safe.
 
+(* ---- the wrapper layers and cross-call aliasing, derived from the translated source by the same checker *)
+
+(* the decorator closures (_register.inner 1-D/2-D, _class_wrapper.inner) and _return_results are bodies of the
+   checked table: with every argument of `inner` caller-owned they write through no caller-owned source; the
+   `params` dict they store into is, for every registered body, a new object (re-checked return summaries).
+   C13_alias_map_data is therefore no longer an assumption of C13_writes_safe but an exact refinement of it. *)
+Theorem C13_wrappers_checked :
+  has_body "_algorithm_setup:_Algorithm._register [writes only ]"
+  && has_body "two_d._algorithm_setup:_Algorithm2D._register [writes only ]"
+  && has_body "_algorithm_setup:_class_wrapper [writes only ]"
+  && has_body "_algorithm_setup:_Algorithm._return_results [writes only params]"
+  && has_body "two_d._algorithm_setup:_Algorithm2D._return_results [writes only params]" = true.
+Proof. exact gen_wrappers_checked. Qed.
+Print Assumptions C13_wrappers_checked.
+
+(* an attribute store `self.a = e` that the table claims fresh: whenever the checker accepts the store followed by
+   its assertion, the stored value denotes library-allocated buffers only, in every state covered by the entry
+   taint -- also when the call raises right after the store (the fact is about the state at the store) *)
+Theorem C13_assert_fresh : forall (own : nat -> owner) n r l T N B C,
+  analyse (SSeq (SBind n r) (SWrite n l)) T = Ok N B C ->
+  forall (st : store) (S : nat -> Prop), covers own st T -> rhs_sem own r st S ->
+  forall b, S b -> own b = Fresh.
+Proof. exact bind_then_assert_fresh. Qed.
+Print Assumptions C13_assert_fresh.
+
+(* self.x / self.z (the caller's arrays when already float64 and sorted) are classified caller-owned, every
+   write-site body that mentions them (or what they hold) treats them as caller-owned on entry, and no write
+   site has them as its root; with C13_writes_ok no write goes through any alias of them, in any call *)
+Theorem C13_self_xz_never_written :
+  forallb (fun b => attr_guarded "self.x" b && attr_guarded "self.z" b
+                    && attr_guarded "self.x.*" b && attr_guarded "self.z.*" b) write_bodies = true
+  /\ existsb (String.eqb "x") caller_attrs && existsb (String.eqb "z") caller_attrs
+     && negb (existsb (String.eqb "x") fresh_attrs) && negb (existsb (String.eqb "z") fresh_attrs) = true.
+Proof. split; [exact gen_self_xz_guarded | exact gen_xz_classified_caller_owned]. Qed.
+Print Assumptions C13_self_xz_never_written.
+
+(* the same for EVERY persistent attribute (of the fitters and of the helper objects cached on them) that is not
+   proven fresh at all of its stores.  PARTIAL: the induction over call histories that turns "fresh at every
+   store + guarded everywhere else" into "every call starts in a state covered by its entry taint" is argued in
+   claims/C13.json, not mechanised (full statement: forall histories of calls on one fitter object, the store at
+   each call entry is covered by b_tainted of the called body). *)
+Theorem C13_persistent_attrs_guarded_partial :
+  forallb (fun a => forallb (attr_guarded (String.append "self." a)) write_bodies) caller_attrs = true.
+Proof. exact gen_caller_attrs_guarded. Qed.
+Print Assumptions C13_persistent_attrs_guarded_partial.
+
 (* ---- non-vacuity *)
 Example C13_copy_flag_matters_nonvacuous : setup_w_may_alias false = true /\ setup_w_may_alias true = false.
 Proof. split; [exact setup_w_may_alias_false | exact setup_w_may_alias_true]. Qed.
